@@ -36,8 +36,24 @@ def seed_from_env():
 # --------------------------------------------------------------------------------------------
 # build
 
+def _sweep_stale_work():
+    """scratch left behind by interrupted runs (TLC metadirs can be gigabytes)"""
+    for sub in ("tlc", "traces", "fs"):
+        d = os.path.join(WORK, sub)
+        if not os.path.isdir(d):
+            continue
+        for e in os.listdir(d):
+            p = os.path.join(d, e)
+            try:
+                if time.time() - os.path.getmtime(p) > 3 * 3600:
+                    shutil.rmtree(p, ignore_errors=True)
+            except OSError:
+                pass
+
+
 def build_harness():
     """(Re)build the harness against /repo's current working tree, hooks on."""
+    _sweep_stale_work()
     t0 = time.time()
     env = dict(os.environ)
     env["CARGO_NET_OFFLINE"] = "true"
